@@ -18,7 +18,7 @@ theorem dedupLen_sub : ∀ (l : List (List VNode)) (x : List VNode), x ∈ dedup
       · exact List.mem_cons_of_mem _ (ih x h')
 
 theorem leafFor_eta (c : MCtx) (k : String) (named : Bool) :
-    leafFor c k named = .mk (leafFor c k named).kind (leafFor c k named).named false c.field [] := by
+    leafFor c k named = .mk (leafFor c k named).kind (leafFor c k named).named false c.effField [] := by
   unfold leafFor
   split <;> rfl
 
@@ -39,7 +39,7 @@ theorem matchLeaf_sound (c : MCtx) (k : String) (named : Bool) (cs rem : List VN
   · simp at h
 
 theorem matchHidden_sound (c : MCtx) (cs rem : List VNode) (h : rem ∈ matchHiddenOrAliased c cs) :
-    (c.alias = none ∧ cs = rem) ∨ (∃ v n, c.alias = some (v, n) ∧ cs = [.mk v n false c.field []] ++ rem) := by
+    (c.effAlias = none ∧ cs = rem) ∨ (∃ v n, c.effAlias = some (v, n) ∧ cs = [.mk v n false c.effField []] ++ rem) := by
   unfold matchHiddenOrAliased at h
   split at h
   · next ha => left; simp only [List.mem_singleton] at h; exact ⟨ha, h.symm⟩
@@ -64,8 +64,8 @@ def SoundAt (g : Grammar) (f : Nat) : Prop :=
 
 theorem token_case (g : Grammar) (a : Rule) (c : MCtx) (cs rem : List VNode)
     (mkStr : ∀ s, tokenString a = some s → Matches g (.token a) c [leafFor c s false])
-    (mkHid : tokenString a = none → c.alias = none → Matches g (.token a) c [])
-    (mkAl : ∀ v n, tokenString a = none → c.alias = some (v, n) → Matches g (.token a) c [.mk v n false c.field []])
+    (mkHid : tokenString a = none → c.effAlias = none → Matches g (.token a) c [])
+    (mkAl : ∀ v n, tokenString a = none → c.effAlias = some (v, n) → Matches g (.token a) c [.mk v n false c.effField []])
     (h : rem ∈ (match tokenString a with
                 | some s => matchLeaf c s false cs
                 | none => matchHiddenOrAliased c cs)) :
@@ -115,23 +115,87 @@ theorem sound_step (g : Grammar) (f : Nat) (ih : SoundAt g f) : SoundAt g (f + 1
       · obtain ⟨p, hc, hm⟩ := ihM a c cs rem h; exact ⟨p, hc, .choiceL hm⟩
       · obtain ⟨p, hc, hm⟩ := ihM b c cs rem h; exact ⟨p, hc, .choiceR hm⟩
     | rep a =>
-      rcases List.mem_cons.mp h with rfl | h
-      · exact ⟨[], rfl, .repNil⟩
-      · have h := dedupLen_sub _ _ h
+      simp only at h
+      split at h
+      · next hal =>
+        rcases List.mem_cons.mp h with rfl | h
+        · exact ⟨[], rfl, .repNil⟩
+        · have h := dedupLen_sub _ _ h
+          simp only [List.mem_flatMap] at h
+          obtain ⟨r1, hr1, hr2⟩ := h
+          split at hr2
+          · obtain ⟨p1, hc1, hm1⟩ := ihM a _ cs r1 hr1
+            obtain ⟨p2, hc2, hm2⟩ := ihM (.rep a) c r1 rem hr2
+            exact ⟨p1 ++ p2, by rw [hc1, hc2, List.append_assoc], .repCons hal hm1 hm2⟩
+          · simp at hr2
+      · next v n hal =>
+        rcases List.mem_cons.mp h with rfl | h
+        · exact ⟨[], rfl, .repNil⟩
+        · rcases List.mem_append.mp h with h | h
+          rotate_left
+          · split at h
+            · next x rest =>
+              split at h
+              · next hc =>
+                simp only [List.mem_singleton] at h
+                subst h
+                simp only [List.any_eq_true, List.isEmpty_iff] at hc
+                obtain ⟨rem', hrem', hnil⟩ := hc
+                subst hnil
+                obtain ⟨p, hcp, hm⟩ := ihM a _ _ [] hrem'
+                simp only [List.append_nil] at hcp
+                exact ⟨[_], rfl, .repAliasedUnit hal (by rw [hcp]; exact hm)⟩
+              · simp at h
+            · simp at h
+          split at h
+          · next k' n' f' kids rest =>
+            split at h
+            · next hc =>
+              simp only [List.mem_singleton] at h
+              subst h
+              obtain ⟨h1, h2, h3, h5⟩ := hc
+              subst h1 h2 h3
+              exact ⟨[_], rfl, .repAliased hal (ihB _ _ h5)⟩
+            · simp at h
+          · simp at h
+    | rep1 a =>
+      simp only at h
+      split at h
+      · next hal =>
+        have h := dedupLen_sub _ _ h
         simp only [List.mem_flatMap] at h
         obtain ⟨r1, hr1, hr2⟩ := h
-        split at hr2
-        · obtain ⟨p1, hc1, hm1⟩ := ihM a c cs r1 hr1
-          obtain ⟨p2, hc2, hm2⟩ := ihM (.rep a) c r1 rem hr2
-          exact ⟨p1 ++ p2, by rw [hc1, hc2, List.append_assoc], .repCons hm1 hm2⟩
-        · simp at hr2
-    | rep1 a =>
-      have h := dedupLen_sub _ _ h
-      simp only [List.mem_flatMap] at h
-      obtain ⟨r1, hr1, hr2⟩ := h
-      obtain ⟨p1, hc1, hm1⟩ := ihM a c cs r1 hr1
-      obtain ⟨p2, hc2, hm2⟩ := ihM (.rep a) c r1 rem hr2
-      exact ⟨p1 ++ p2, by rw [hc1, hc2, List.append_assoc], .rep1 hm1 hm2⟩
+        obtain ⟨p1, hc1, hm1⟩ := ihM a _ cs r1 hr1
+        obtain ⟨p2, hc2, hm2⟩ := ihM (.rep a) c r1 rem hr2
+        exact ⟨p1 ++ p2, by rw [hc1, hc2, List.append_assoc], .rep1 hal hm1 hm2⟩
+      · next v n hal =>
+        rcases List.mem_append.mp h with h | h
+        rotate_left
+        · split at h
+          · next x rest =>
+            split at h
+            · next hc =>
+              simp only [List.mem_singleton] at h
+              subst h
+              simp only [List.any_eq_true, List.isEmpty_iff] at hc
+              obtain ⟨rem', hrem', hnil⟩ := hc
+              subst hnil
+              obtain ⟨p, hcp, hm⟩ := ihM a _ _ [] hrem'
+              simp only [List.append_nil] at hcp
+              exact ⟨[_], rfl, .rep1AliasedUnit hal (by rw [hcp]; exact hm)⟩
+            · simp at h
+          · simp at h
+        split at h
+        · next k' n' f' kids rest =>
+          split at h
+          · next hc =>
+            simp only [List.mem_singleton] at h
+            subst h
+            obtain ⟨h1, h2, h3, h5⟩ := hc
+            subst h1 h2 h3
+            exact ⟨[_], rfl, .rep1Aliased hal (ihB _ _ h5)⟩
+          · simp at h
+        · simp at h
     | field n a =>
       obtain ⟨p, hc, hm⟩ := ihM _ _ cs rem h
       exact ⟨p, hc, .field hm⟩
@@ -172,7 +236,7 @@ theorem sound_step (g : Grammar) (f : Nat) (ih : SoundAt g f) : SoundAt g (f + 1
               simp only [List.mem_singleton] at h
               exact ⟨[], by simp [h], .symHiddenToken hb hk ht⟩
             · simp at h
-          · obtain ⟨p, hc, hm⟩ := ihM b c cs rem h
+          · obtain ⟨p, hc, hm⟩ := ihM b _ cs rem h
             exact ⟨p, hc, .symHidden hb hk hm⟩
         · next k n hk =>
           split at h
